@@ -527,3 +527,29 @@ func H_printPath(d, n int) {
 	verifAssert(!failed, "directive panicked")
 	verifAssert(out == want+"|<a b='"+want+"'>", "a print command does not write what its directive returns for the value")
 }
+
+// H_printPathMsg: encoding directives with different arguments on one value inside a message,
+// rendered from the source and through an identity catalogue: every print writes what its own
+// directive call returns.
+func H_printPathMsg(tr bool) {
+	x := verifString(4)
+	for i := 0; i < len(x); i++ {
+		verifAssume(x[i] >= 0x20 && x[i] < 0x7f)
+	}
+	tofu := verifMustCompile("{namespace n}\n/** @param x */\n{template .t autoescape=\"false\"}\n{msg desc=\"d\"}{$x|truncate:1,false}/{$x|truncate:3,false}/{$x|insertWordBreaks:1}/{$x|insertWordBreaks:3}/{$x|truncate:1,false}{/msg}\n{/template}\n")
+	r := tofu.NewRenderer("n.t")
+	if tr {
+		r = r.WithMessages(c03Identity(tofu))
+	}
+	var out []byte
+	err := r.Execute(&sliceWriter{&out}, data.Map{"x": data.String(x)})
+	verifObserve("x", x)
+	verifObserve("out", string(out))
+	verifAssert(err == nil, "message with directive prints failed")
+	a := func(name string, args ...data.Value) string {
+		s, _ := c16Apply(name, data.String(x), args...)
+		return s
+	}
+	want := a("truncate", data.Int(1), data.Bool(false)) + "/" + a("truncate", data.Int(3), data.Bool(false)) + "/" + a("insertWordBreaks", data.Int(1)) + "/" + a("insertWordBreaks", data.Int(3)) + "/" + a("truncate", data.Int(1), data.Bool(false))
+	verifAssert(string(out) == want, "a print inside a message does not write what its own directive returns")
+}
